@@ -139,6 +139,54 @@ def read_options(rel=SETT):
                                 vt = core.src(st.value)
                                 kind = "raw" if vt == al else ("true" if vt == "'.true.'" else ("false" if vt == "'.false.'" else "other"))
                                 out.append(Forward(d, guard, st.targets[0].slice.value, f"self._args.{d}" if vt == al else vt, kind, st.lineno, cls.name))
+            # third idiom: a helper of the class called with literal (dest, conf key):
+            #   self._read_flag_option("classical", "classical")
+            #   def _read_flag_option(self, arg_name, conf_key): flag = vars(self._args).get(arg_name); if flag <guard>: self._confs[conf_key] = <value>
+            helpers = {h.name: h for h in cls.body if isinstance(h, ast.FunctionDef)}
+            for top in m.body:
+                c = top.value if isinstance(top, ast.Expr) and isinstance(top.value, ast.Call) else None
+                if c is None or not (isinstance(c.func, ast.Attribute) and core.src(c.func.value) == "self" and c.func.attr in helpers and c.args and all(isinstance(a, ast.Constant) and isinstance(a.value, str) for a in c.args)):
+                    continue
+                h = helpers[c.func.attr]
+                hp = [a.arg for a in h.args.args if a.arg != "self"]
+                bind = {p_: a.value for p_, a in zip(hp, c.args)}
+                alias = None
+                dest = None
+                for st in h.body:
+                    if isinstance(st, ast.Assign) and isinstance(st.targets[0], ast.Name):
+                        for cc in ast.walk(st.value):
+                            if isinstance(cc, ast.Call) and ((isinstance(cc.func, ast.Attribute) and cc.func.attr == "get") or core.src(cc.func) == "getattr"):
+                                for a in cc.args:
+                                    if isinstance(a, ast.Name) and a.id in bind:
+                                        alias, dest = st.targets[0].id, bind[a.id]
+                if alias is None:
+                    continue
+                probes.setdefault(dest, top.lineno)
+                for st in h.body:
+                    if not isinstance(st, ast.If):
+                        continue
+                    t = core.src(st.test)
+                    tg = {f"{alias} is not None": "is not None", alias: "truthy", f"{alias} is None": "is None", f"not {alias}": "falsy"}.get(t, "other:" + core.norm(t, 60))
+                    for a in ast.walk(st):
+                        if isinstance(a, ast.Assign) and isinstance(a.targets[0], ast.Subscript) and core.src(a.targets[0].value) == "self._confs":
+                            ksl = a.targets[0].slice
+                            key = bind.get(ksl.id) if isinstance(ksl, ast.Name) else (ksl.value if isinstance(ksl, ast.Constant) else None)
+                            if key is None:
+                                continue
+                            v = a.value
+                            vt = core.src(v)
+                            if isinstance(v, ast.Constant) and v.value == ".true.":
+                                kind = "true"
+                            elif isinstance(v, ast.Constant) and v.value == ".false.":
+                                kind = "false"
+                            elif isinstance(v, ast.IfExp) and core.src(v.test) == alias and isinstance(v.body, ast.Constant) and isinstance(v.orelse, ast.Constant) and (v.body.value, v.orelse.value) == (".true.", ".false."):
+                                kind = "true"  # truthy -> .true., falsy -> .false.: the polarity of a positive flag
+                            elif vt == alias:
+                                kind = "raw"
+                            else:
+                                kind = "other"
+                            in_body = any(a in set(ast.walk(b)) for b in st.body)
+                            out.append(Forward(dest, tg if in_body else "other:else-arm", key, f"self._args.{dest}" if vt == alias else vt, kind, top.lineno, cls.name))
     return out, probes
 
 
